@@ -113,14 +113,26 @@ def run_script(script):
     from scales.timer_queue import GLOBAL_TIMER_QUEUE
 
     timers, fired = [], []
+    issuing = [None]      # call number while DispatchMethodCall runs
+    visible = []
 
     class TQ(object):
         def Schedule(self, deadline, action):
-            rec = {'state': 'armed', 'call': None}
+            rec = {'state': 'armed', 'call': None, 'kind': 'sink'}
+            if issuing[0] is not None and not open_ar.ready():
+                # scheduled by the dispatcher itself for a call issued while the client is opening
+                rec['call'], rec['kind'] = issuing[0], 'guard'
             k = len(timers)
             timers.append(rec)
 
             def wrapped():
+                if rec['kind'] == 'guard' and (rec['state'] != 'armed' or visible[rec['call']].ready()):
+                    # ran after on_open cancelled it: `waiting` is false, nothing may happen
+                    before = visible[rec['call']].nsets
+                    action()
+                    if visible[rec['call']].nsets != before:
+                        fired.append((k, rt.now_us()))      # it did something after all: let the model judge
+                    return
                 rec['state'] = 'fired'
                 fired.append((k, rt.now_us()))
                 action()
@@ -133,13 +145,17 @@ def run_script(script):
                 cancel()
             return do_cancel
 
-    inner, stacks, msgs = [], [], []
+    ars, stacks, msgs = {}, {}, {}
+    last_msg = [None]
 
     class CountingAR(AsyncResult):
         def __init__(self):
             AsyncResult.__init__(self)
             self.nsets = 0
-            inner.append(self)
+            # made by DispatchMethodCall / _DispatchWhenOpen for the call being issued, or by
+            # StaticDispatchMessage right after the call's message object
+            cid = issuing[0] if issuing[0] is not None else last_msg[0]
+            ars.setdefault(cid, []).append(self)
 
         def set(self, value=None):
             self.nsets += 1
@@ -155,14 +171,15 @@ def run_script(script):
     class Stack(BaseStack):
         def __init__(self):
             BaseStack.__init__(self)
-            stacks.append(self)
+            stacks[last_msg[0]] = self
 
     class Msg(BaseMsg):
         __slots__ = ()
 
         def __init__(self, *a):
             BaseMsg.__init__(self, *a)
-            msgs.append(self)
+            msgs[self.args[0]] = self
+            last_msg[0] = self.args[0]
 
     lower_got = {}
     open_ar = AsyncResult()
@@ -193,8 +210,10 @@ def run_script(script):
             return Lower
 
     saved = (sinkmod.GLOBAL_TIMER_QUEUE, dispatch.AsyncResult, dispatch.ClientMessageSinkStack,
-             dispatch.MethodCallMessage)
+             dispatch.MethodCallMessage, getattr(dispatch, 'GLOBAL_TIMER_QUEUE', None))
     sinkmod.GLOBAL_TIMER_QUEUE = TQ()
+    if hasattr(dispatch, 'GLOBAL_TIMER_QUEUE'):
+        dispatch.GLOBAL_TIMER_QUEUE = sinkmod.GLOBAL_TIMER_QUEUE
     dispatch.AsyncResult = CountingAR
     dispatch.ClientMessageSinkStack = Stack
     dispatch.MethodCallMessage = Msg
@@ -204,39 +223,46 @@ def run_script(script):
         tprov.next_provider = LowerProvider()
         disp = dispatch.MessageDispatcher(None, tprov, None, {SinkProperties.Label: 'fe'})
         disp.Open()
-        del inner[:], stacks[:], msgs[:]     # objects made while constructing the dispatcher
+        ars.clear(); stacks.clear(); msgs.clear()     # objects made while constructing the dispatcher
         rt.advance_to_us((rt.now_us() // 10000 + 1) * 10000 + 3700)     # 3.7 ms off the 10 ms grid
         base = 0     # times are microseconds since the loop's start instant (a multiple of 10 ms)
-        visible, info = [], []
+        info = []
 
         def now():
             return rt.now_us() - base
 
         def timer_of(cid):
+            # once the call has been dispatched the timeout sink's timer counts, before that the
+            # dispatcher's own
+            kind = 'sink' if cid in msgs else 'guard'
             for t in timers:
-                if t['call'] == cid:
+                if t['call'] == cid and t['kind'] == kind:
                     return {'armed': 1, 'cancelled': 2, 'fired': 3}[t['state']]
             return 0
 
         def res_of(ar):
+            # what the caller sees, as get() reports it; values/errors the script never posted are
+            # encoded as 999999 so that the specification (not the decoder) judges them
             if not ar.ready():
                 return 'pending'
-            ex = ar.exception
-            if ex is None:
-                v = ar.value
-                return ['ok', v if isinstance(v, int) else -1]
-            if isinstance(ex, STimeout):
+            try:
+                v = ar.get(block=False)
+            except STimeout:
                 return 'timeout'
-            innerex = getattr(ex, 'inner_exception', ex)
-            return ['err', innerex.code if isinstance(innerex, E) else -1]
+            except BaseException as ex:
+                innerex = getattr(ex, 'inner_exception', ex)
+                return ['err', innerex.code if isinstance(innerex, E) else 999999]
+            return ['ok', v if isinstance(v, int) and not isinstance(v, bool) and v >= 0 else 999999]
 
         def snapshot():
             out = []
             for cid, ar in enumerate(visible):
-                n = inner[cid].nsets if cid < len(inner) else 0
-                depth = len(stacks[cid]._stack) if cid < len(stacks) else 1
+                n = max([a.nsets for a in ars.get(cid, [])] + [getattr(ar, 'nsets', 0)])
+                # a call not dispatched yet has no stack: one frame to come while it waits for the
+                # client to open, none once it is complete
+                depth = len(stacks[cid]._stack) if cid in stacks else (0 if ar.ready() else 1)
                 evt = False
-                if cid < len(msgs):
+                if cid in msgs:
                     ev = msgs[cid].properties.get(Deadline.EVENT_KEY)
                     evt = bool(ev is not None and ev.Get())
                 out.append([res_of(ar), n, depth, timer_of(cid), cid in lower_got, evt])
@@ -254,7 +280,11 @@ def run_script(script):
                 T = st[1]
                 cid = len(visible)
                 t = now()
-                ar = disp.DispatchMethodCall('m', (cid,), {}, timeout=(T / 1000.0 if T else None))
+                issuing[0] = cid
+                try:
+                    ar = disp.DispatchMethodCall('m', (cid,), {}, timeout=(T / 1000.0 if T else None))
+                finally:
+                    issuing[0] = None
                 visible.append(ar)
                 info.append({'T': T * 1000, 'issue': t})
                 emit('issue %d %d' % (T * 1000, t))
@@ -317,7 +347,9 @@ def run_script(script):
                 tags.add('never-completed')
     finally:
         (sinkmod.GLOBAL_TIMER_QUEUE, dispatch.AsyncResult, dispatch.ClientMessageSinkStack,
-         dispatch.MethodCallMessage) = saved
+         dispatch.MethodCallMessage) = saved[:4]
+        if saved[4] is not None:
+            dispatch.GLOBAL_TIMER_QUEUE = saved[4]
     errs = rt.take_errors()
     if errs:
         tags.add('hub-error')
